@@ -29,6 +29,9 @@ def flag_names(e, resolve=None):
     if k == "Path" and e.get("res") == "local" and "let_init" in e:
         return flag_names(e["let_init"], resolve)      # a flag set hoisted into an immutable `let`
     if k == "Path" and e.get("res") == "def":
+        named = _decompose_const(e)
+        if named is not None:
+            return named
         return {e["path"].split("::")[-1]}
     if k == "Binary" and e.get("op") in ("BitOr",):
         return flag_names(e["l"], resolve) | flag_names(e["r"], resolve)
@@ -37,6 +40,31 @@ def flag_names(e, resolve=None):
     if k in ("Call", "MethodCall") and (callee(e) or "").endswith("::empty"):
         return set()
     return {"?" + render(e)}
+
+
+def _decompose_const(e):
+    """a named constant of a bitflags type that is not itself one of the type's flags (`const SPLITS: InfoSubset = A.union(B)`) is
+    the set of single-bit flags of that type contained in its evaluated value"""
+    from .db import DB
+    db = getattr(DB, "current", None)
+    if db is None or e.get("dk") != "Const":
+        return None
+    c = db.consts.get(e.get("path"))
+    if not c or not isinstance(c.get("val"), int):
+        return None
+    val, ty = c["val"], c.get("ty")
+    flags = {}
+    for k2, v2 in db.consts.items():
+        if v2.get("ty") == ty and isinstance(v2.get("val"), int) and v2["val"] > 0 and v2["val"] & (v2["val"] - 1) == 0:
+            owner = k2.rsplit("::", 1)[0]
+            if ty and owner.split("::")[-1] == ty.split("::")[-1]:      # associated constant of the type itself
+                flags[v2["val"]] = k2.split("::")[-1]
+    out, rest = set(), val
+    for bit, name in flags.items():
+        if val & bit:
+            out.add(name)
+            rest &= ~bit
+    return out if (out or val == 0) and rest == 0 else None
 
 
 def _fn_name(e):
